@@ -512,6 +512,8 @@ func c51CertPEM(der ...[]byte) []byte {
 	return buf.Bytes()
 }
 
+var c51ChainFaults = []string{"other-name", "other-key", "other-key", "keytype", "notyet", "expired", "empty-chain", "garbage-intermediate"}
+
 var c51EntryClasses = []string{
 	"none", "none", "none", "none", "none",
 	"valid", "valid", "valid", "valid-pkcs8", "valid-chain", "valid-wildcard",
@@ -725,6 +727,7 @@ type c51Scenario struct {
 	Cache       string
 	Entries     []c51Entry
 	Refuse      map[string]string
+	Fault       map[string]string // CA delivers a defective chain for this name after a successful flow
 	Batches     [][]c51Hello
 	SecondMgr   bool // the last batch is served by a second Manager sharing the Cache
 }
@@ -744,7 +747,7 @@ func c51ManagerScenario(rt *rapid.T, c *ev.Collector) {
 		rt.Fatalf("VF-VIOLATION: property=C51 %s", p)
 	}
 	_, f7Listed := ev.IsKnownFinding("F7")
-	sc := &c51Scenario{Refuse: map[string]string{}}
+	sc := &c51Scenario{Refuse: map[string]string{}, Fault: map[string]string{}}
 
 	now := time.Date(2030, 6, 15, 12, 0, 0, 0, time.UTC).
 		Add(time.Duration(rapid.Int64Range(0, 100_000_000).Draw(rt, "nowSec")) * time.Second).
@@ -788,6 +791,7 @@ func c51ManagerScenario(rt *rapid.T, c *ev.Collector) {
 	// batches (drawn before the policy so that the concurrency class is known)
 	nBatches := rapid.IntRange(1, 3).Draw(rt, "nBatches")
 	focused := map[string]bool{} // (name index, key type) pairs the batches concentrate on
+	firstFocus, firstFocusKind := 0, "ecdsa-modern"
 	solo := true
 	for bi := 0; bi < nBatches; bi++ {
 		size := 1
@@ -805,6 +809,9 @@ func c51ManagerScenario(rt *rapid.T, c *ev.Collector) {
 		focus := rapid.IntRange(0, nNames-1).Draw(rt, "focus")
 		focusKind := rapid.SampledFrom(c51HelloKinds).Draw(rt, "focusKind")
 		focused[fmt.Sprintf("%d.%v", focus, c51WantRSA(focusKind))] = true
+		if bi == 0 {
+			firstFocus, firstFocusKind = focus, focusKind
+		}
 		var batch []c51Hello
 		for i := 0; i < size; i++ {
 			var h c51Hello
@@ -842,6 +849,30 @@ func c51ManagerScenario(rt *rapid.T, c *ev.Collector) {
 			batch = append(batch, h)
 		}
 		sc.Batches = append(sc.Batches, batch)
+	}
+
+	// A defective chain delivered by the CA for the name the first batch concentrates on,
+	// and follow-up requests on the same Manager after that failed issuance.
+	if firstFocusKind != "alpn-challenge" && rapid.IntRange(0, 3).Draw(rt, "chainFault") == 2 {
+		sc.Fault[ascii[firstFocus]] = rapid.SampledFrom(c51ChainFaults).Draw(rt, "chainFaultClass")
+		mkh := func(kind string) c51Hello {
+			h := c51Hello{Base: firstFocus, Kind: kind}
+			h.Name, h.Form = c51Present(rt, "followup", canon[firstFocus])
+			h.Expect, _ = refacme.LookupASCII(h.Name)
+			return h
+		}
+		follow := []c51Hello{mkh(firstFocusKind), mkh(firstFocusKind)}
+		if rapid.IntRange(0, 2).Draw(rt, "followOtherType") == 1 {
+			other := "rsa-suites"
+			if c51WantRSA(firstFocusKind) {
+				other = "ecdsa-modern"
+			}
+			follow = append(follow, mkh(other))
+		}
+		for _, h := range follow {
+			sc.Batches = append(sc.Batches, []c51Hello{h}) // one at a time, right after the failure
+		}
+		nBatches = len(sc.Batches)
 	}
 
 	// host policy
@@ -903,6 +934,9 @@ func c51ManagerScenario(rt *rapid.T, c *ev.Collector) {
 	}
 	for k, v := range sc.Refuse {
 		ca.refuse[k] = v
+	}
+	for k, v := range sc.Fault {
+		ca.fault[k] = v
 	}
 	c51DumpCase(sc)
 
@@ -1155,8 +1189,8 @@ func c51ManagerScenario(rt *rapid.T, c *ev.Collector) {
 		// case a second Manager legitimately tries again.
 		limit := managers
 		for _, a := range ascii {
-			if a == parts[0] {
-				limit = 1
+			if a == parts[0] && sc.Fault[a] == "" {
+				limit = 1 // (a Manager that had to reject the delivered chain leaves nothing in the cache for the next one)
 			}
 		}
 		if n > limit && !due[ck] {
@@ -1189,6 +1223,21 @@ func c51ManagerScenario(rt *rapid.T, c *ev.Collector) {
 	}
 	sort.Strings(classes)
 	classes = append(classes, "policy:"+sc.Policy, "cachekind:"+sc.Cache, fmt.Sprintf("issued:%d", min(totalIssued, 3)))
+	for d, f := range sc.Fault {
+		nontrivial = true
+		reached := issued[d+"|ecdsa"]+issued[d+"|rsa"] > 0
+		if !reached {
+			classes = append(classes, "chainfault:"+f+":not-reached(cache/policy)")
+			continue
+		}
+		classes = append(classes, "chainfault:"+f+"+followup:same-keytype")
+		if len(requestedTypes[d]) > 1 {
+			classes = append(classes, "chainfault:"+f+"+followup:other-keytype")
+		}
+		if len(sc.Batches[0]) > 1 {
+			classes = append(classes, "chainfault:"+f+"+followup:concurrent-waiters")
+		}
+	}
 	if served > 0 {
 		classes = append(classes, "scenario:served")
 	}
